@@ -5,10 +5,11 @@ use ast_grep_core::meta_var::MetaVarEnv;
 use ast_grep_core::{Doc, Matcher, Node};
 
 use std::borrow::Cow;
-#[cfg(feature = "verif-hooks")]
-use crate::verif_hooks::VecSet as HashSet;
 #[cfg(not(feature = "verif-hooks"))]
 use std::collections::HashSet;
+
+#[cfg(feature = "verif-hooks")]
+use crate::verif_hooks::VecSet as HashSet;
 
 use bit_set::BitSet;
 use schemars::JsonSchema;
